@@ -41,6 +41,8 @@ def main():
     try:
         import regen
         gen_info = regen.regen(ctx, getattr(mod, 'GEN', []))
+        if hasattr(mod, 'pre_build'):
+            gen_info.update(mod.pre_build(ctx) or {})
     except Exception as e:
         gen_info = {}
         problems.append({'kind': 'broken-obligation', 'stage': 'S0-regen',
